@@ -91,7 +91,7 @@ Section Progress.
   Qed.
 
   (* ---- flow predicates ---------------------------------------------------------------------------------- *)
-  Definition Pg (s : st) : Prop := rpaused (pr s) = true -> nonempty s.
+  Definition Pg (s : st) : Prop := reof (re s) = false -> rpaused (pr s) = true -> nonempty s.
   Definition Pt (s : st) : Prop := connected (pr s) = true -> tpaused (pr s) = true -> rpaused (pr s) = true.
   Definition Pq (s : st) : Prop := ppaused (pa s) = true -> nonempty s.
 
@@ -213,7 +213,7 @@ Section Progress.
   (* the data_available loop *)
   Lemma drain_Q f : forall s s' r,
     drain H hnew hstep havail f s = (s', r) ->
-    Q s s' /\ ((more (pa s) = true -> nonempty s) -> r = DPaused -> nonempty s') /\
+    Q s s' /\ ((ppaused (pa s) = true -> more (pa s) = true -> nonempty s) -> r = DPaused -> nonempty s') /\
     (r = DPaused -> ppaused (pa s') = false /\ more (pa s') = true) /\ (r = DDone -> more (pa s') = false) /\ nfd r.
   Proof.
     induction f as [|f IH]; intros s s' r; cbn [drain].
@@ -221,7 +221,7 @@ Section Progress.
     - destruct (more (pa s)) eqn:Em.
       + destruct (ppaused (pa s)) eqn:Ep.
         * intros [= <- <-]. destruct (upd_Q s (fun q => pa_paused q false)) as (Q1 & R1 & P1 & _); [kt|].
-          split; [exact Q1|]. split; [intros Hm _; unfold nonempty in *; rewrite R1; auto|].
+          split; [exact Q1|]. split; [intros Hm _; unfold nonempty in *; rewrite R1; apply Hm; auto|].
           split; [intros _; rewrite P1; destruct (pa s); cbn in *; auto|]. split; [intro X; discriminate X|intros e X; discriminate X].
         * destruct (db_feed H hnew hstep havail s []) as [s1 [e|m]] eqn:Ed; destruct (db_feed_Q _ _ _ _ Ed) as (Q1 & N1).
           -- intros [= <- <-]. split; [exact Q1|]. split; [intros _ X; discriminate X|]. split; [intro X; discriminate X|].
@@ -229,7 +229,7 @@ Section Progress.
           -- destruct (upd_Q s1 (fun q => pa_more q m)) as (Q2 & R2 & P2 & _); [kt|].
              intros Hd. apply IH in Hd. destruct Hd as (Q3 & N3 & D3 & O3 & E3).
              split; [eapply Q_trans; [exact Q1|eapply Q_trans; [exact Q2|exact Q3]]|]. split; [|auto].
-             intros _. apply N3. rewrite P2. destruct (pa s1); cbn. intros ->. unfold nonempty in *. rewrite R2. auto.
+             intros _. apply N3. intros _. rewrite P2. destruct (pa s1); cbn. intros ->. unfold nonempty in *. rewrite R2. auto.
       + intros [= <- <-]. split; [apply Q_refl|]. split; [intros _ X; discriminate X|]. split; [intro X; discriminate X|].
         split; [auto|intros e X; discriminate X].
   Qed.
@@ -268,7 +268,7 @@ Section Progress.
       set (s2 := upd_pa H s1 _) in *. clearbody s2.
       assert (Hm : more (pa s2) = true -> nonempty s2).
       { pafield P2 s1. intros ->. unfold nonempty in *. rewrite R2. auto. }
-      destruct (drain H hnew hstep havail f s2) as [s3 [| |e]] eqn:Edr; destruct (drain_Q _ _ _ _ Edr) as ((Q3 & L3 & E3 & Dn3) & N3' & D3 & O3 & F3); pose proof (N3' Hm) as N3.
+      destruct (drain H hnew hstep havail f s2) as [s3 [| |e]] eqn:Edr; destruct (drain_Q _ _ _ _ Edr) as ((Q3 & L3 & E3 & Dn3) & N3' & D3 & O3 & F3); pose proof (N3' (fun _ => Hm)) as N3.
       + destruct (plength (pa s3) =? 0) eqn:Ez.
         * intros Hf. destruct (finish_eof_Q _ _ _ _ Hf) as ((Q4 & L4 & E4 & Dn4) & NP & NN & C4 & F4).
           split; [qt|]. split; [congruence|]. split; [intro X; contradiction|]. split; [intro X; contradiction|]. split; [exact C4|]. split; [exact F4|].
@@ -305,7 +305,7 @@ Section Progress.
       set (s2 := upd_pa H s1 _) in *. clearbody s2.
       assert (Hm : more (pa s2) = true -> nonempty s2).
       { pafield P2 s1. intros ->. unfold nonempty in *. rewrite R2. auto. }
-      destruct (drain H hnew hstep havail f s2) as [s3 [| |e]] eqn:Edr; destruct (drain_Q _ _ _ _ Edr) as ((Q3 & L3 & E3 & Dn3) & N3' & D3 & O3 & F3); pose proof (N3' Hm) as N3.
+      destruct (drain H hnew hstep havail f s2) as [s3 [| |e]] eqn:Edr; destruct (drain_Q _ _ _ _ Edr) as ((Q3 & L3 & E3 & Dn3) & N3' & D3 & O3 & F3); pose proof (N3' (fun _ => Hm)) as N3.
       + destruct (eof_pending (pa s3)) eqn:Ep.
         * destruct (db_feed_eof H heof hflush s3) as [s4 [e|]] eqn:Ede; destruct (db_feed_eof_Q _ _ _ Ede) as ((Q4 & L4 & E4 & Dn4) & R4 & F4); intros [= <- <-].
           -- split; [qt|]. split; [intro X; discriminate X|]. split; [intro X; discriminate X|].
@@ -507,7 +507,7 @@ Section Progress.
     Qw s s' /\
     (r = None -> pdone (pa s) = false ->
       (pdone (pa s') = true /\ reof (re s') = true) \/
-      (pdone (pa s') = false /\ ((more (pa s) = true -> nonempty s) -> nonempty s') /\ ppaused (pa s') = false /\ more (pa s') = true /\ shape s')).
+      (pdone (pa s') = false /\ ((ppaused (pa s) = true -> more (pa s) = true -> nonempty s) -> nonempty s') /\ ppaused (pa s') = false /\ more (pa s') = true /\ shape s')).
   Proof.
     unfold payload_feed_eof. destruct (ptyp (pa s)) eqn:Et.
     - destruct (negb (plength (pa s) =? 0)) eqn:Ez; [intros [= <- <-]; split; [apply Qw_refl|intro X; discriminate X]|].
@@ -524,15 +524,15 @@ Section Progress.
     - intros [= <- <-]. split; [apply Qw_refl|intro X; discriminate X].
     - destruct (upd_Qw s (fun q => pa_eofp q true)) as (Q0 & R0 & P0 & _); [kt|].
       set (s0 := upd_pa H s _) in *. clearbody s0.
-      assert (F0 : eof_pending (pa s0) = true /\ more (pa s0) = more (pa s) /\ pdone (pa s0) = pdone (pa s)) by (pafield P0 s; auto).
-      destruct F0 as (F01 & F02 & F03).
+      assert (F0 : eof_pending (pa s0) = true /\ more (pa s0) = more (pa s) /\ pdone (pa s0) = pdone (pa s) /\ ppaused (pa s0) = ppaused (pa s)) by (pafield P0 s; auto).
+      destruct F0 as (F01 & F02 & F03 & F04).
       destruct (drain H hnew hstep havail f s0) as [s1 [| |e]] eqn:Edr; destruct (drain_Q _ _ _ _ Edr) as ((Q1 & L1 & E1 & Dn1) & N1 & D1 & O1 & F1).
       + destruct (db_feed_eof H heof hflush s1) as [s2 [e|]] eqn:Ede; destruct (db_feed_eof_Q _ _ _ Ede) as ((Q2 & _) & R2 & _); intros [= <- <-].
         * split; [qt|intro X; discriminate X].
         * destruct (upd_Qw s2 (fun q => pa_eofp (pa_done q true) false)) as (Q3 & R3 & P3 & _); [kt|].
           split; [qt|]. intros _ _. left. split; [pafield P3 s2; reflexivity|rewrite R3; auto].
       + intros [= <- <-]. split; [qt|]. intros _ Hd. right. destruct (D1 eq_refl) as (D11 & D12).
-        split; [congruence|]. split; [intro Hm; apply N1; [rewrite F02; intro X; unfold nonempty in *; rewrite R0; auto|reflexivity]|]. split; [exact D11|]. split; [exact D12|].
+        split; [congruence|]. split; [intro Hm; apply N1; [rewrite F02, F04; intros X Y; unfold nonempty in *; rewrite R0; auto|reflexivity]|]. split; [exact D11|]. split; [exact D12|].
         right. pose proof Q1 as (_ & _ & _ & _ & _ & _ & T & _). pose proof Q0 as (_ & _ & _ & _ & _ & _ & T0 & _). split; congruence.
       + intros [= <- <-]. split; [qt|intro X; discriminate X].
   Qed.
@@ -564,7 +564,7 @@ Section Progress.
     (pp_present (pr s) = false -> reof (re s) = true) /\
     (connected (pr s) = false -> parser_alive (pr s) = true -> pp_present (pr s) = true -> has_more (pr s) = true /\ shape s) /\
     (connected (pr s) = false -> parser_alive (pr s) = false -> reof (re s) = true).
-  Definition Ph (s : st) : Prop := has_more (pr s) = true -> parser_alive (pr s) = true -> nonempty s.
+  Definition Ph (s : st) : Prop := reof (re s) = false -> has_more (pr s) = true -> parser_alive (pr s) = true -> nonempty s.
 
   Lemma pr_set_proj s f : pr (pr_set H s f) = f (pr s) /\ pa (pr_set H s f) = pa s /\ re (pr_set H s f) = re s /\ cf (pr_set H s f) = cf s.
   Proof. destruct s; cbn; auto. Qed.
@@ -598,7 +598,7 @@ Section Progress.
     intros Hw Hf. unfold parser_feed. cbv zeta.
     assert (Hs : W s /\ (rexn (re s) = None -> Fb s /\ (has_more (pr s) = false \/ parser_alive (pr s) = false -> Ph s) /\ (Pg s -> Pg s) /\ (Pt s -> Pt s)) /\
                  (rexn (re s) = None -> rexn (re s) = None) /\ connected (pr s) = connected (pr s)).
-    { split; [exact Hw|]. split; [|auto]. intro X. split; [auto|]. split; [|auto]. unfold Ph. intros [A|A] B C; congruence. }
+    { split; [exact Hw|]. split; [|auto]. intro X. split; [auto|]. split; [|auto]. unfold Ph. intros [A|A] _ B C; congruence. }
     destruct (negb (parser_alive (pr s))) eqn:Ea.
     { apply negb_true_iff in Ea. destruct Hs as (A & B & C & D). split; [exact A|]. split; [|auto]. intro X. destruct (B X) as (B1 & B2 & B3 & B4). auto. }
     destruct (isnil data && negb (has_more (pr s))) eqn:En.
@@ -606,7 +606,7 @@ Section Progress.
     apply negb_false_iff in Ea.
     destruct (negb (pp_present (pr s))) eqn:Ep.
     { apply negb_true_iff in Ep. destruct Hs as (A & B & C & D). split; [exact A|]. split; [|auto]. intro X. destruct (B X) as (B1 & B2 & B3 & B4).
-      split; [auto|]. split; [|auto]. unfold Ph. intros Y _. exfalso. destruct B1 as (_ & _ & _ & K & _). specialize (K Y Ea). congruence. }
+      split; [auto|]. split; [|auto]. unfold Ph. intros _ Y _. exfalso. destruct B1 as (_ & _ & _ & K & _). specialize (K Y Ea). congruence. }
     apply negb_false_iff in Ep. clear Hs.
     destruct (payload_feed H hnew hstep havail heof hflush f s data) as [s1 r] eqn:Ef.
     destruct (payload_feed_Q _ _ _ _ _ Ef) as (Q1 & R1).
@@ -680,10 +680,10 @@ Section Progress.
           assert (Hk : ptyp (pa s) <> PChunked /\ nonempty s2 /\ ppaused (pa s2) = false /\ more (pa s2) = true /\ shape s2).
           { destruct (ptyp (pa s)) eqn:Et.
             - destruct (F32 ltac:(congruence)) as (F33 & F34). destruct (R1 eq_refl F33) as [(X1 & _)|(_ & X2 & X3 & X4 & X5)]; [congruence|].
-              split; [congruence|]. split; [apply X2; intro Y; apply Phs; auto|auto].
+              split; [congruence|]. split; [apply X2; intro Y; congruence|auto].
             - unfold payload_feed_eof in Ef. rewrite Et in Ef. discriminate Ef.
             - destruct (F32 ltac:(congruence)) as (F33 & F34). destruct (R1 eq_refl F33) as [(X1 & _)|(_ & X2 & X3 & X4 & X5)]; [congruence|].
-              split; [congruence|]. split; [apply X2; intro Y; apply Phs; auto|auto]. }
+              split; [congruence|]. split; [apply X2; intro Y; congruence|auto]. }
           destruct Hk as (K1 & K2 & K3 & K4 & K5).
           unfold Fb, Ph, Pg, Pt, nonempty, shape in *. rewrite ?U1, ?U2, ?U3. cbn. rewrite ?T7, ?T9, ?T10. rewrite ?Ea, ?Ep. cbn.
           destruct (F32 K1) as (F33 & F34). fin2.
@@ -702,7 +702,7 @@ Section Progress.
     match goal with |- context [parser_feed H hnew hstep havail heof hflush f ?t []] => set (s1 := t) end.
     assert (H1 : W s1 /\ (rexn (re s1) = None -> Fb s1) /\ Pg s1 /\ rpaused (pr s1) = false).
     { subst s1. match goal with |- context [pr_set H s ?g] => destruct (pr_set_proj s g) as (U1 & U2 & U3 & U4) end.
-      split; [unfold W in *; rewrite U3; exact Hw|]. split; [|split; [unfold Pg; rewrite U1; cbn; intro X; discriminate X|rewrite U1; reflexivity]].
+      split; [unfold W in *; rewrite U3; exact Hw|]. split; [|split; [unfold Pg; rewrite U1; cbn; intros _ X; discriminate X|rewrite U1; reflexivity]].
       rewrite U3. intro X. specialize (Hf X). unfold Fb, shape, nonempty in *. rewrite ?U1, ?U2, ?U3. cbn. exact Hf. }
     clearbody s1. destruct H1 as (Hw1 & Hf1 & Hg1 & Hr1).
     destruct (parser_feed_F f s1 [] Hw1 Hf1) as (Hw2 & Hf2 & _ & _). cbv zeta in *.
@@ -739,7 +739,7 @@ Section Progress.
     match goal with |- context [set_re H s ?r] => set (r1 := r) end.
     set (s1 := set_re H s r1).
     destruct Hi as (Hw & Hf).
-    assert (I1 : W s1 /\ (rexn (re s1) = None -> Fb s1 /\ Pt s1 /\ (buf' <> [] -> Ph s1 /\ Pg s1)) /\
+    assert (I1 : W s1 /\ (rexn (re s1) = None -> Fb s1 /\ Pt s1 /\ (buf' <> [] \/ reof (re s) = true -> Ph s1 /\ Pg s1)) /\
                  re s1 = r1 /\ rexn r1 = rexn (re s)).
     { subst s1 r1. clear Ex. bust s. cbn in Eb. subst bf. unfold set_re. cbn.
       split; [unfold W in *; cbn in *; eapply Wr_take; eassumption|]. split; [|split; reflexivity].
@@ -748,8 +748,9 @@ Section Progress.
     match goal with |- ((if ?x then _ else _), _) = _ -> _ => destruct x eqn:Ec end; intros [= <- <-].
     - apply resume_F; [exact Hw1|]. intro X. destruct (Hf1 X) as (A & _). exact A.
     - split; [exact Hw1|]. intro X. destruct (Hf1 X) as (A & B & C).
+      destruct (reof (re s)) eqn:Ere; [destruct (C (or_intror eq_refl)) as (C1 & C2); auto|].
       assert (Hne : buf' <> []).
-      { intro Hn. unfold W in Hw1. rewrite Hre in Hw1. subst r1. cbn in Ec.
+      { intro Hn. unfold W in Hw1. rewrite Hre in Hw1. subst r1. cbn in Ec. try rewrite Ere in Ec. unfold dg_resume_not_eof in Ec. cbn [negb andb] in Ec.
         pose proof Hw1 as (W1 & W2 & W3 & W4 & W5 & W6). cbn in W1, W4, W5.
         rewrite Hn in W1. cbn in W1.
         destruct (splits (re s)) as [l|] eqn:Es.
@@ -758,7 +759,7 @@ Section Progress.
           destruct (0 <? low (re s)) eqn:E0; [|lia]. destruct (lenN (drop_stale l (cursor (re s) + lenN data)) <? lowc (re s)) eqn:E1; [|lia].
           cbn in Ec. discriminate Ec.
         - unfold dg_resume_size in Ec. rewrite W1 in Ec. destruct (0 <? low (re s)) eqn:E0; [cbn in Ec; discriminate Ec|lia]. }
-      destruct (C Hne) as (C1 & C2). auto.
+      destruct (C (or_introl Hne)) as (C1 & C2). auto.
   Qed.
 
   Lemma take_k_F f k : forall s acc s' dd, Inv s -> take_k H hnew hstep havail heof hflush f k s acc = (s', dd) -> Inv s'.
@@ -877,10 +878,10 @@ Section Progress.
   Theorem progress_all : forall f c t len enc evs (y : sys) os,
     1 <= c_limit c ->
     run H hnew hstep havail heof hflush f (init H hnew c t len enc) evs = (y, os) ->
-    rexn (re (core y)) = None -> connected (pr (core y)) = true -> buf (re (core y)) = [] ->
+    rexn (re (core y)) = None -> reof (re (core y)) = false -> connected (pr (core y)) = true -> buf (re (core y)) = [] ->
     has_more (pr (core y)) = false /\ rpaused (pr (core y)) = false /\ tpaused (pr (core y)) = false.
   Proof.
-    intros f c t len enc evs y os Hl Hr Hx Hc He.
+    intros f c t len enc evs y os Hl Hr Hx Hn Hc He.
     destruct (run_F f evs _ _ _ (init_F c t len enc Hl) Hr) as (Hw & Hf). destruct (Hf Hx) as (Fbs & Phs & Pgs & Pts).
     destruct Fbs as (F1 & F2 & _). unfold Ph, Pg, Pt, nonempty in *.
     assert (R : rpaused (pr (core y)) = false). { destruct (rpaused (pr (core y))); [exfalso; apply Pgs; auto|reflexivity]. }
@@ -901,6 +902,7 @@ Section Progress.
     destruct (Hf eq_refl) as (Fbs & Phs & Pgs & Pts). destruct Fbs as (F1 & F2 & F3 & F4 & F5 & F6 & F7).
     destruct (parser_alive (pr (core y))) eqn:Ea; [|auto].
     destruct (pp_present (pr (core y))) eqn:Ep; [|auto].
+    destruct (reof (re (core y))) eqn:Hn; [reflexivity|].
     exfalso. destruct (F6 Hc eq_refl eq_refl) as (Hm & _). unfold Ph, nonempty in Phs. apply Phs; auto.
   Qed.
 End Progress.
